@@ -66,4 +66,26 @@ def queries(ctx, extra):
                              + ["-DCH%d=%d" % (i, c) for i, c in enumerate(ch4)],
                         unwind=6, unwindset=["btreeCheck0:2", "cnt:3", "paired:3"], timeout=600, group="btree",
                         bound="%s at child %d of an arbitrary valid tree: root %d keys, children %s keys, symbolic keys" % (nm, idx, r, ch)))
+    # hash table: one step from every chain shape (bucket 0: 0..3 entries, bucket 1: 0..1), symbolic hash values;
+    # plus the growth path from a full 1-bucket table (5 entries -> 6th insert enlarges to 2 buckets)
+    QUICK = {(7, 0, 0), (7, 1, 0), (7, 0, 1), (7, 2, 0), (1, 4, 0)}      # the others take 130-860 s each
+    for buckc, l0, l1 in [(7, a, b) for a in (0, 1, 2, 3) for b in (0, 1)] + [(1, 5, 0), (1, 4, 0)]:
+        qs.append(Query(name="table_step_b%d_%d_%d" % (buckc, l0, l1), harness="c20_table.c", entry="h_table_step", srcs=["table.c", "util.c"],
+                        defs=["-DV_NO_STO_STUBS", "-DV_NO_BUG_STUB", "-DBUCKC=%d" % buckc, "-DL0=%d" % l0, "-DL1=%d" % l1],
+                        unwind=18, timeout=1800, mem_gb=10, group="table",
+                        tiers=("quick", "thorough") if (buckc, l0, l1) in QUICK else ("thorough",),
+                        bound="arbitrary valid table: %d bucket(s), chains of %d and %d entries, 6-key universe with symbolic hash "
+                              "values 0..255 (used only through mod buckc and ==); one symbolic set/drop/lookup, then lookup of a symbolic "
+                              "key, size and iteration" % (buckc, l0, l1)))
+    for buckc, l0, l1 in ((1, 1, 0), (2, 1, 1), (2, 2, 0)):
+        qs.append(Query(name="table_grow_hook_b%d_%d_%d" % (buckc, l0, l1), harness="c20_table.c", entry="h_table_step", srcs=["table.c", "util.c"],
+                        defs=["-DV_NO_STO_STUBS", "-DV_NO_BUG_STUB", "-DALDOR_VERIF", "-DALDOR_VERIF_TBL_MAXLOAD=1", "-DBUCKC=%d" % buckc,
+                              "-DL0=%d" % l0, "-DL1=%d" % l1, "-DTOP=0"], unwind=18, timeout=900, mem_gb=10, group="table",
+                        tiers=("quick", "thorough") if buckc == 1 else ("thorough",),
+                        bound="load factor 1 (hook): full %d-bucket table (%d+%d entries) + one tblSetElt of a symbolic key: the "
+                              "tblEnlarge/rehash path, symbolic hash values; then lookup of a symbolic key, size and iteration" % (buckc, l0, l1)))
+    qs.append(Query(name="table_grow_b1_5", tiers=("thorough",), harness="c20_table.c", entry="h_table_step", srcs=["table.c", "util.c"],
+                    defs=["-DV_NO_STO_STUBS", "-DV_NO_BUG_STUB", "-DBUCKC=1", "-DL0=5", "-DL1=0", "-DTOP=0"], unwind=18, timeout=900, mem_gb=10,
+                    group="table", bound="full 1-bucket table (5 entries) + one tblSetElt of a symbolic key: the tblEnlarge/rehash path "
+                                         "(1 -> 2 buckets), symbolic hash values; then lookup of a symbolic key, size and iteration"))
     return qs
